@@ -187,7 +187,8 @@ mod helpx {
     #[derive(Clone, Copy, Debug)]
     pub enum ZsOp { Push, Resize(usize), ResizeWith(usize), ExtendClone(usize), WithinClone(usize), Truncate(usize), Pop, Remove(usize), SwapRemove(usize),
                     Insert(usize), Retain(u32), DedupBy(u32), Drain(usize, usize, usize), ExtractIf(u32, usize), Clear, IntoIter(usize), MapInPlace,
-                    AppendVec(usize), AppendDrain(usize), AppendArray, SpliceVec(usize, usize, usize), SplitOff(usize, usize) }
+                    AppendVec(usize), AppendDrain(usize), AppendArray, SpliceVec(usize, usize, usize), SplitOff(usize, usize),
+                    PushWith, PopIf(u32), InsertMut(usize) }
 
     fn zs_name(op: &ZsOp) -> String { format!("{op:?}").replace(' ', "") }
     pub fn zs_parse(t: &str) -> Option<ZsOp> {
@@ -200,7 +201,15 @@ mod helpx {
             "Retain" => ZsOp::Retain(g(0) as u32), "DedupBy" => ZsOp::DedupBy(g(0) as u32), "Drain" => ZsOp::Drain(g(0), g(1), g(2)), "ExtractIf" => ZsOp::ExtractIf(g(0) as u32, g(1)),
             "Clear" => ZsOp::Clear, "IntoIter" => ZsOp::IntoIter(g(0)), "MapInPlace" => ZsOp::MapInPlace,
             "AppendVec" => ZsOp::AppendVec(g(0)), "AppendDrain" => ZsOp::AppendDrain(g(0)), "AppendArray" => ZsOp::AppendArray,
-            "SpliceVec" => ZsOp::SpliceVec(g(0), g(1), g(2)), "SplitOff" => ZsOp::SplitOff(g(0), g(1)), _ => return None })
+            "SpliceVec" => ZsOp::SpliceVec(g(0), g(1), g(2)), "SplitOff" => ZsOp::SplitOff(g(0), g(1)),
+            "PushWith" => ZsOp::PushWith, "PopIf" => ZsOp::PopIf(g(0) as u32), "InsertMut" => ZsOp::InsertMut(g(0)), _ => return None })
+    }
+
+    /// how the vector comes into existence / how it ends
+    #[derive(Clone, Copy, Debug)]
+    pub struct Frame { pub sized: bool, pub ctor: u8, pub carg: usize, pub fin: u8 }
+    pub fn gen_frame(r: &mut Rng) -> Frame {
+        Frame { sized: r.coin(1, 2), ctor: r.below(6) as u8, carg: r.below(9) as usize, fin: r.below(5) as u8 }
     }
 
     pub fn gen_zs(r: &mut Rng) -> (u8, i64, Vec<ZsOp>) {
@@ -208,13 +217,14 @@ mod helpx {
         let k = r.range(1, 9) as usize;
         let ops: Vec<ZsOp> = (0..k).map(|i| {
             let small = |r: &mut Rng| r.below(12) as usize;
-            match r.below(if i + 1 == k { 23 } else { 21 }) {
+            match r.below(if i + 1 == k { 26 } else { 24 }) {
+                23 => ZsOp::PushWith, 22 => ZsOp::PopIf(r.below(4) as u32), 21 => ZsOp::InsertMut(small(r)),
                 16 => ZsOp::AppendVec(small(r)), 17 => ZsOp::AppendDrain(small(r)), 18 => ZsOp::AppendArray,
                 19 => { let a = small(r); ZsOp::SpliceVec(a, a + small(r), small(r)) } 20 => { let a = small(r); ZsOp::SplitOff(a, a + small(r)) }
                 0 | 1 => ZsOp::Push, 2 => ZsOp::Resize(small(r)), 3 => ZsOp::ResizeWith(small(r)), 4 => ZsOp::ExtendClone(small(r)), 5 => ZsOp::WithinClone(small(r)),
                 6 => ZsOp::Truncate(small(r)), 7 => ZsOp::Pop, 8 => ZsOp::Remove(small(r)), 9 => ZsOp::SwapRemove(small(r)), 10 => ZsOp::Insert(small(r)),
                 11 => ZsOp::Retain(r.below(256) as u32), 12 => ZsOp::DedupBy(r.below(256) as u32), 13 => { let a = small(r); ZsOp::Drain(a, a + small(r), small(r)) }
-                14 => ZsOp::ExtractIf(r.below(256) as u32, small(r)), 15 => ZsOp::Clear, 21 => ZsOp::IntoIter(small(r)), _ => ZsOp::MapInPlace }
+                14 => ZsOp::ExtractIf(r.below(256) as u32, small(r)), 15 => ZsOp::Clear, 24 => ZsOp::IntoIter(small(r)), _ => ZsOp::MapInPlace }
         }).collect();
         let fuse: i64 = if r.coin(2, 3) { r.below(30) as i64 } else { -1 };
         (kind, fuse, ops)
@@ -222,6 +232,15 @@ mod helpx {
 
     pub fn zs_line(kind: u8, fuse: i64, ops: &[ZsOp]) -> String {
         format!("HZ {kind} {fuse} {}", ops.iter().map(zs_name).collect::<Vec<_>>().join(";"))
+    }
+    pub fn hh_line(fr: &Frame, kind: u8, fuse: i64, ops: &[ZsOp]) -> String {
+        format!("HH {} {} {} {} {kind} {fuse} {}", fr.sized as u8, fr.ctor, fr.carg, fr.fin, ops.iter().map(zs_name).collect::<Vec<_>>().join(";"))
+    }
+    pub fn hh_parse(l: &str) -> Option<(Frame, u8, i64, Vec<ZsOp>)> {
+        let f: Vec<&str> = l.strip_prefix("HH ")?.splitn(7, ' ').collect();
+        if f.len() < 6 { return None; }
+        let ops = if f.len() == 7 { f[6].split(';').filter_map(zs_parse).collect() } else { vec![] };
+        Some((Frame { sized: f[0] == "1", ctor: f[1].parse().ok()?, carg: f[2].parse().ok()?, fin: f[3].parse().ok()? }, f[4].parse().ok()?, f[5].parse().ok()?, ops))
     }
 
     pub fn zs_probe(kind: u8, fuse: i64, ops: &[ZsOp]) -> Vec<String> {
@@ -269,6 +288,9 @@ mod helpx {
                         ZsOp::AppendDrain(n) => { let mut src: Vec<Z0> = (0..n + 2).map(|_| z0()).collect(); $v.append(src.drain(1..n + 1)); }
                         ZsOp::AppendArray => { $v.append([z0(), z0(), z0()]); }
                         ZsOp::SpliceVec(..) | ZsOp::SplitOff(..) => { $rich!($v, op, len); }
+                        ZsOp::PushWith => { $v.push_with(|| { tick(); z0() }); }
+                        ZsOp::PopIf(m) => { let _ = $v.pop_if(|_| { tick(); m % 2 == 0 }); }
+                        ZsOp::InsertMut(i) => { let _ = $v.insert_mut(i.min(len), z0()); }
                         ZsOp::IntoIter(_) | ZsOp::MapInPlace => {}     // consuming: handled after the loop
                     }
                 }
@@ -331,6 +353,131 @@ mod helpx {
         if res.is_err() && !exploded { notes.push(format!("helpers: a BumpBox<[T]> history of zero-sized elements panicked although the scripted panic did not fire (n {n}, ops {})", ops.iter().map(zs_name).collect::<Vec<_>>().join(";"))); }
         let (b, d) = (ZBORN.with(|x| x.get()), ZDROP.with(|x| x.get()));
         if b != d { notes.push(format!("helpers: zero-sized elements of a collection lost or dropped twice: {b} came into existence, {d} were dropped (BumpBox<[T]>, n {n}, fuse {fuse}, ops {})", ops.iter().map(zs_name).collect::<Vec<_>>().join(";"))); }
+        notes
+    }
+
+    // ---------------------------------------------------------------- framed histories, sized and zero-sized
+    /// like zs_probe, for a sized (H) or zero-sized (Z0) element type, with the constructors
+    /// (new / from_elem_in / from_iter_in / from_iter_exact_in / from_owned_slice_in) and the ways a
+    /// vector can end (drop / into_boxed_slice / into_fixed_vec + into_vec / into_parts + from_parts /
+    /// into_iter) around the history, and push_with / pop_if / insert_mut inside it.
+    pub fn hh_probe(fr: &Frame, kind: u8, fuse: i64, ops: &[ZsOp]) -> Vec<String> {
+        use bump_scope::{BumpVec, FixedBumpVec, MutBumpVec, MutBumpVecRev};
+        let mut notes: Vec<String> = vec![];
+        HDROPS.with(|d| d.borrow_mut().clear()); BORN.with(|b| b.borrow_mut().clear());
+        ZBORN.with(|b| b.set(0)); ZDROP.with(|d| d.set(0));
+        FUSE.with(|f| f.set(fuse));
+        let mut bump: Bump = Bump::new();
+        let n = fr.carg;
+        macro_rules! body {
+            ($t:ty, $mk:expr) => {{
+                macro_rules! ops_on {
+                    ($v:ident, $rich:ident) => {{
+                        for op in ops.iter() {
+                            let len = $v.len();
+                            match *op {
+                                ZsOp::Push => { $v.push($mk); }
+                                ZsOp::PushWith => { $v.push_with(|| { tick(); $mk }); }
+                                ZsOp::PopIf(m) => { let _ = $v.pop_if(|_| { tick(); m % 2 == 0 }); }
+                                ZsOp::InsertMut(i) => { let _ = $v.insert_mut(i.min(len), $mk); }
+                                ZsOp::Resize(k) => { $v.resize(k, $mk); }
+                                ZsOp::ResizeWith(k) => { $v.resize_with(k, || { tick(); $mk }); }
+                                ZsOp::ExtendClone(k) => { let src: Vec<$t> = (0..k).map(|_| $mk).collect(); $v.extend_from_slice_clone(&src); }
+                                ZsOp::WithinClone(k) => { $v.extend_from_within_clone(0..k.min(len)); }
+                                ZsOp::Truncate(k) => { $v.truncate(k); }
+                                ZsOp::Pop => { $v.pop(); }
+                                ZsOp::Remove(i) => { if i < len { $v.remove(i); } }
+                                ZsOp::SwapRemove(i) => { if i < len { $v.swap_remove(i); } }
+                                ZsOp::Insert(i) => { $v.insert(i.min(len), $mk); }
+                                ZsOp::Clear => { $v.clear(); }
+                                ZsOp::AppendVec(k) => { let src: Vec<$t> = (0..k).map(|_| $mk).collect(); $v.append(src); }
+                                ZsOp::AppendDrain(k) => { let mut src: Vec<$t> = (0..k + 2).map(|_| $mk).collect(); $v.append(src.drain(1..k + 1)); }
+                                ZsOp::AppendArray => { $v.append([$mk, $mk, $mk]); }
+                                ZsOp::Retain(..) | ZsOp::DedupBy(..) | ZsOp::Drain(..) | ZsOp::ExtractIf(..) | ZsOp::SpliceVec(..) | ZsOp::SplitOff(..) => { $rich!($v, op, len); }
+                                ZsOp::IntoIter(_) | ZsOp::MapInPlace => {}
+                            }
+                        }
+                    }};
+                }
+                macro_rules! rich {
+                    ($v:ident, $op:expr, $len:expr) => {{ let len = $len; match *$op {
+                        ZsOp::Retain(mask) => { let mut k = 0u32; $v.retain(|_| { tick(); k += 1; (mask >> (k % 8)) & 1 == 1 }); }
+                        ZsOp::DedupBy(mask) => { let mut k = 0u32; $v.dedup_by(|_, _| { tick(); k += 1; (mask >> (k % 8)) & 1 == 1 }); }
+                        ZsOp::Drain(a, b, take) => { let (a, b) = (a.min(len), b.min(len)); let mut d = $v.drain(a..b); for _ in 0..take { if d.next().is_none() { break; } } }
+                        ZsOp::ExtractIf(mask, take) => { let mut k = 0u32; let mut it = $v.extract_if(|_| { tick(); k += 1; (mask >> (k % 8)) & 1 == 1 }); for _ in 0..take { if it.next().is_none() { break; } } }
+                        _ => {}
+                    } }};
+                }
+                macro_rules! poor { ($v:ident, $op:expr, $len:expr) => {{ let _ = ($op, $len); }}; }
+                // the constructors take an iterator / a value / an owned slice
+                macro_rules! construct {
+                    ($ty:ident, $alloc:expr) => {{
+                        match fr.ctor {
+                            0 => $ty::from_elem_in($mk, n, $alloc),
+                            1 => $ty::from_iter_in((0..n).map(|_| { tick(); $mk }), $alloc),
+                            2 => $ty::from_iter_exact_in((0..n).map(|_| { tick(); $mk }), $alloc),
+                            3 => { let src: Vec<$t> = (0..n).map(|_| $mk).collect(); $ty::from_owned_slice_in(src, $alloc) }
+                            4 => $ty::from_owned_slice_in([$mk, $mk], $alloc),
+                            _ => $ty::new_in($alloc),
+                        }
+                    }};
+                }
+                match kind {
+                    0 => {
+                        let mut v: BumpVec<$t, &Bump> = construct!(BumpVec, &bump);
+                        ops_on!(v, rich);
+                        match fr.fin {
+                            0 => drop(v),
+                            1 => { let b = v.into_boxed_slice(); drop(b); }
+                            2 => { let f = v.into_fixed_vec(); let w = f.into_vec(&bump); drop(w); }
+                            3 => { let (f, a) = v.into_parts(); let w = BumpVec::from_parts(f, a); drop(w); }
+                            _ => { let mut it = v.into_iter(); for _ in 0..n { if it.next().is_none() { break; } } }
+                        }
+                    }
+                    1 => {
+                        let mut v: FixedBumpVec<$t> = match fr.ctor {
+                            1 => FixedBumpVec::from_iter_in((0..n).map(|_| { tick(); $mk }), &bump),
+                            2 => FixedBumpVec::from_iter_exact_in((0..n).map(|_| { tick(); $mk }), &bump),
+                            _ => FixedBumpVec::with_capacity_in(64, &bump),
+                        };
+                        // a fixed vector made from an iterator is full: only shrinking operations apply
+                        let full = matches!(fr.ctor, 1 | 2);
+                        if !full { ops_on!(v, rich); } else { for op in ops.iter() { let len = v.len(); match *op { ZsOp::Pop => { v.pop(); } ZsOp::Truncate(k) => v.truncate(k), ZsOp::Remove(i) => { if i < len { v.remove(i); } }
+                            ZsOp::Retain(..) | ZsOp::DedupBy(..) | ZsOp::Drain(..) | ZsOp::ExtractIf(..) => { rich!(v, op, len); } ZsOp::PopIf(m) => { let _ = v.pop_if(|_| { tick(); m % 2 == 0 }); } _ => {} } } }
+                        match fr.fin {
+                            1 => { let b = v.into_boxed_slice(); drop(b); }
+                            2 => { let w = v.into_vec(&bump); drop(w); }
+                            3 => { let (init, spare) = v.split_at_spare(); drop(spare); drop(init); }
+                            4 => { let mut it = v.into_iter(); for _ in 0..n { if it.next().is_none() { break; } } }
+                            _ => drop(v),
+                        }
+                    }
+                    2 => {
+                        let mut v: MutBumpVec<$t, &mut Bump> = construct!(MutBumpVec, &mut bump);
+                        ops_on!(v, rich);
+                        match fr.fin { 1 => { let b = v.into_boxed_slice(); drop(b); } 4 => { let mut it = v.into_iter(); for _ in 0..n { if it.next().is_none() { break; } } } _ => drop(v) }
+                    }
+                    _ => {
+                        let mut v: MutBumpVecRev<$t, &mut Bump> = construct!(MutBumpVecRev, &mut bump);
+                        ops_on!(v, poor);
+                        match fr.fin { 1 => { let b = v.into_boxed_slice(); drop(b); } 4 => { let mut it = v.into_iter(); for _ in 0..n { if it.next().is_none() { break; } } } _ => drop(v) }
+                    }
+                }
+            }};
+        }
+        let res = catch_unwind(AssertUnwindSafe(|| { if fr.sized { body!(H, H(fresh())); } else { body!(Z0, z0()); } }));
+        let exploded = FUSE.with(|f| { let v = f.get(); f.set(-1); v }) == -1 && fuse >= 0;
+        let desc = format!("{}", hh_line(fr, kind, fuse, ops));
+        if res.is_err() && !exploded { notes.push(format!("helpers: a framed collection history panicked although the scripted panic did not fire ({desc})")); }
+        let (b, d) = (ZBORN.with(|x| x.get()), ZDROP.with(|x| x.get()));
+        if b != d { notes.push(format!("helpers: zero-sized elements of a collection lost or dropped twice: {b} came into existence, {d} were dropped ({desc})")); }
+        let mut born = BORN.with(|b| b.borrow().clone()); born.sort();
+        let mut dropped = HDROPS.with(|d| d.borrow().clone()); dropped.sort();
+        if born != dropped {
+            let lost: Vec<u32> = born.iter().filter(|x| !dropped.contains(x)).copied().collect();
+            let mut twice = vec![]; for w in dropped.windows(2) { if w[0] == w[1] { twice.push(w[0]); } }
+            notes.push(format!("helpers: elements of a collection lost {lost:?} / dropped twice {twice:?} ({} born, {} drops; {desc})", born.len(), dropped.len()));
+        }
         notes
     }
 }
